@@ -37,7 +37,14 @@ def run(C, R):
         R.floor('C12.R0f future-construction-paths[%s]' % cfg, _fsi(C, R, cfg, ['channel::oneshot::ChannelState', 'channel::oneshot_broadcast::ChannelState'], 'C12.R0f'), 2)
         from common import constructor_state
         for _st in STATES:
-            constructor_state(R, C.engine(cfg), C.facts(cfg), _st, {'value': 'none', 'is_fulfilled': ('const', 0), 'waiters': 'empty-queue'}, 'C12.R0')
+            def _decided(d):
+                # the state after new() + send(v) (or + close()): decided, with or without a value, nobody waiting.
+                # (a value in an UNdecided channel is not reachable: a later send would be accepted as a second value)
+                q = d.get('waiters')
+                if d.get('is_fulfilled') == ('const', 1) and q is not None and q[0] == 'agg' and q[2] == 'new':
+                    return 'starts decided (as after new() + send / close)'
+                return None
+            constructor_state(R, C.engine(cfg), C.facts(cfg), _st, {'value': 'none', 'is_fulfilled': ('const', 0), 'waiters': 'empty-queue'}, 'C12.R0', also_valid=_decided)
         from common import wrapper_discipline
         R.floor('C12.W wrapper-paths[%s]' % cfg, wrapper_discipline(C, R, cfg, list(STATES), 'C12.W'), 2)
         from common import slot_discipline
